@@ -59,7 +59,8 @@ def index_of_result(v):
 
 def run_rule(rep, fx, rid):
     rep.rule(rid, 'NumberSetIter never yields a bit index >= num_bits: rev_at_bit is initialised from num_bits and only ever decreased, and on every '
-                  'path of next/next_back to a Some(..) result the comparisons passed entail index < rev_at_bit')
+                  'path of next/next_back to a Some(..) result the comparisons passed entail index < rev_at_bit; and the member yielded is one whose own bit '
+                  '(word i/32, mask 1 << (31 - i%32)) was tested and found set on that path')
     adt = fx.adt(ADT)
     if not adt:
         raise CheckBroken('NumberSetIter not in the ADT table')
@@ -165,12 +166,57 @@ def run_rule(rep, fx, rid):
                         bad = 'index %s is not entailed to be < rev_at_bit by the comparisons on path %s' % (str(idx)[:160], list(path))
                         break
                     why = proved
+                    # (member) the path tested exactly that bit and found it set: bitmap[i / 32] & (1 << (31 - i % 32)) != 0 with i = the yielded index
+                    tested = False
+                    for g in s.guards:
+                        if not ((g[0] == 'Ne' and g[3] is True) or (g[0] == 'Eq' and g[3] is False)):
+                            continue
+                        sides = [g[1], g[2]]
+                        if not any(x == ('c', 0) for x in sides):
+                            continue
+                        word = [x for x in sides if x != ('c', 0)][0]
+                        if not (word[0] == 'bin' and word[1] == 'BitAnd'):
+                            continue
+                        divs = term_find(word, lambda t: t[0] == 'bin' and t[1] == 'Div' and t[3] == ('c', 32))
+                        rems = term_find(word, lambda t: t[0] == 'bin' and t[1] == 'Rem' and t[3] == ('c', 32))
+                        if divs and rems and all(lin(_uncast(d[2])) == lin(idx) for d in divs) and all(lin(_uncast(r[2])) == lin(idx) for r in rems):
+                            tested = True
+                    if not tested:
+                        bad = 'the path %s yields index %s without having found bit (i/32, 31 - i%%32) of the bitmap set for that very i' % (list(path), str(idx)[:80])
+                        break
                 if bad:
                     break
             rep.check(bad is None and n_paths > 0, rid, '%s/some#%d/index-below-rev_at_bit' % (short, n_somes),
                       '%d path(s): %s' % (n_paths, why), '%s can yield a member outside the window: %s' % (short, bad or 'no path to the result found'),
                       b.where(bb, si))
     rep.floor(rid, n_somes, 2, 'Some(..) results of NumberSetIter::next/next_back')
+    # (mask) one bit-addressing formula at every site that touches a bit: mask = 1 << (31 - i % 32), the RTPS numbering (most significant bit first)
+    from rdv.core import Origins, term_str
+    n_mask = 0
+    for b in fx.bodies:
+        if 'structure::sequence_number::NumberSet' not in b.key or b.j.get('test'):
+            continue
+        og = None
+        for bb, si, st in b.statements():
+            if st['s'] == 'assign' and st['rv']['r'] == 'bin' and st['rv']['op'] in ('Shl', 'ShlUnchecked'):
+                og = og or Origins(b, summaries=False)
+                v = og._rvalue(st['rv'], bb, si, 0)
+                n_mask += 1
+                one, sh = v[2], v[3]
+                while sh[0] == 'field' and sh[1] == '0':
+                    sh = sh[2]
+                ok = one == ('const', 'int', 1) and sh[0] == 'bin' and sh[1].startswith('Sub') and sh[2] == ('const', 'int', 31) and sh[3][0] == 'bin' and sh[3][1] == 'Rem' and \
+                    sh[3][3] == ('const', 'int', 32)
+                rep.check(ok, rid, '%s/mask#%d' % (b.key.rsplit('::', 1)[-1], n_mask), 'mask = 1 << (31 - i % 32)',
+                          '%s addresses a bit with %s instead of 1 << (31 - i %% 32): the sites that set, test and serialise members no longer agree on which bit a member is'
+                          % (b.key.rsplit('::', 1)[-1], term_str(v)[:80]), b.where(bb, si))
+    rep.floor(rid, n_mask, 3, 'bit masks in NumberSet (insert, next, next_back)')
+
+
+def _uncast(t):
+    while t[0] == 'cast':
+        t = t[2]
+    return t
 
 
 def rule_from_base_and_set(rep, fx, rid):
